@@ -21,12 +21,12 @@ import (
 )
 
 type c17Case struct {
-	Cookie   string   `json:"cookie"`   // "" | default | named | attrs
-	Cors     string   `json:"cors"`     // "" | star | fixed | list | regexp | true | false | listmixed
+	Cookie   string   `json:"cookie"` // "" | default | named | attrs
+	Cors     string   `json:"cors"`   // "" | star | fixed | list | regexp | true | false | listmixed
 	Creds    bool     `json:"credentials"`
 	PreCont  bool     `json:"preflight_continue"`
 	OptStat  int      `json:"options_success_status"`
-	Methods  string   `json:"methods"`  // default | string | list
+	Methods  string   `json:"methods"`         // default | string | list
 	Headers  string   `json:"allowed_headers"` // none | string | list
 	Sessions int      `json:"sessions"`
 	Steps    []string `json:"steps"` // per session after handshake: poll | bigpoll (compressible, Accept-Encoding) | post | preflight
